@@ -19,6 +19,11 @@ Part 1, the solver (spec/Solver.tla, shared with C02; harness/solverkit.py):
     C11_PersistentErrorRaises     no period is reported as solved at values where a submitted equation is
                                   undefined (ZeroDivisionError / ValueError when evaluated there): the
                                   arithmetic error persisted, so a ValueError is due
+    C11_ToleranceHonoured         no period is reported as solved whose last error measure (recomputed from the
+                                  public step trace) exceeds the tolerance that was REQUESTED - solver parameter,
+                                  else block line, else 1e-8; including a requested tolerance of exactly 0
+                                  (spec: state field zero, outcome "approx", invariant
+                                  C11_SolvedOnlyAtRequestedTolerance, instance MC_Solver_zero.cfg)
     C11_PrefixIntact              every entry present before SolveStep(k) is unchanged after it
     C11_EqualLengthsAfterFailure  after the exception all non-exogenous series have equal length
     C11_ContractionSolved         a system generated as a sup-norm contraction (every row sum <= 0.8,
@@ -84,13 +89,15 @@ def liveness_part(rep):
 def solver_part(rep):
     liveness_part(rep)
     sk.expect_counterexample(rep, core, 'MC_Solver_asfound2.cfg', 'C11_EqualLengthsAfterFailure')
+    if rep.tier == 'thorough':
+        sk.expect_counterexample(rep, core, 'MC_Solver_seeded_zero.cfg', 'C11_SolvedOnlyAtRequestedTolerance')
     behs = sk.tlc_behaviours(rep, core, rep.tier)
     items = [{'case': sk.scenario(b, v), 'behaviour': b} for b in behs if sk.scenario_realisable(b)
              for v in sk.scenario_variants(b)]
     rep.extra['behaviours_replayed'] = sum(1 for b in behs if sk.scenario_realisable(b))
     rep.extra['behaviour_realisations'] = len(items)
     items += [{'case': c} for c in sk.classics()]
-    n_random = 400 if rep.tier == 'quick' else 5000
+    n_random = 200 if rep.tier == 'quick' else 5000
     items += [{'case': c} for c in sk.random_cases(rep.seed + 11, n_random, contractive_share=0.6)]
     rep.extra['random_systems'] = n_random
     observed, verdicts = sk.judge_cases(rep, core, 'C11', items, nontrivial)
